@@ -81,12 +81,15 @@ CLAIMED = {
     text='PARTIAL. The loop model of C08 (Model/NnxLift.v) extended with nn.scan\'s broadcast pre-pass (Model/LinenLoop.v). Proved for every body, role assignment, length, direction, carry and '
          'inputs: for a body that leaves broadcast collections alone the lifted scan is the unrolled Python loop over sliced variables (unroll does not occur); a write to a broadcast collection '
          'is accepted only when its value cannot depend on the iteration, input or carry (non-interference), otherwise rejected; under vmap what is left in a None-axis collection is identical at '
-         'every index. Tied to /repo per run: a Linen module interpreting integer bodies over variables in the collections ax0 / ax1 / bc / carry under nn.scan and nn.vmap (non-square shapes, '
-         'lengths 1-4, reverse, unroll, split_rngs), apply on stacked variables and init; final carry, stacked outputs and collections compared in Coq and with the Python loop / per-index '
-         'calls on the real code; key equality pattern per split_rngs.',
-    note='Trusted: Coq kernel, vm_compute, harness, jaxcompat, lax.scan / jax.vmap. Axis collections are slices in the model: transpose_to_front / moveaxis tied by the correspondence only. '
-         'Known finding F25: a loop-invariant write to a broadcast collection inside nn.scan is applied once (refuted inside the model). in_axes/out_axes prefix trees over containers, remat_scan, '
-         'negative axes (C19/F4) not generated. No axioms.',
+         'every index; the axis arithmetic of axes_scan.py (transpose_to_front / transpose_from_front for in_axes / out_axes / variable_axes at any, also negative, position) is a pair of '
+         'inverse permutations for every rank, and moving the scan axis of a stack of L slices to the front exposes the slices. Tied to /repo per run: a Linen module interpreting integer '
+         'bodies over variables in the collections ax0 / ax1 / ax2 / axm1 / bc / carry under nn.scan and nn.vmap (variable axes 0, 1, 2, -1, non-square shapes, lengths 1-4, reverse, unroll, '
+         'split_rngs), apply on stacked variables and init; final carry, stacked outputs and collections compared in Coq and with the Python loop / per-index calls on the real code; key '
+         'equality pattern per split_rngs; nn.scan with array-valued steps and in_axes / out_axes / variable_axes at every position against the Python loop, its shapes against Model/Axes.v; '
+         'nn.remat_scan with nested lengths against the loop, keys per layer under split / unsplit streams.',
+    note='Trusted: Coq kernel, vm_compute, harness, jaxcompat, lax.scan / jax.vmap. Axis collections are slices in the model; the permutations are proved inverse, their effect on values is '
+         'tied by the correspondence and the loop oracle. Known finding F25: a loop-invariant write to a broadcast collection inside nn.scan is applied once (refuted inside the model). '
+         'in_axes/out_axes prefix trees over containers not generated. No axioms.',
     technique='Coq proof (loop/scan simulation, non-interference of the taint analysis) + per-run correspondence by vm_compute + loop oracle on the real code',
     ref='DESIGN.md section 5, C06'),
   'C07': dict(
@@ -105,7 +108,7 @@ CLAIMED = {
          'views of axis groups, shared None groups with jax.vmap\'s batchedness tracked by dependency, scan with per-step slices, threaded Carry state and broadcast state re-read from the '
          'original, gradients as symbolic derivatives of polynomial losses over the Variables selected by wrt / DiffState. Proved for all inputs: each Variable gets the axis of its first '
          'matching filter; if vmap accepts a body then what it leaves in shared state is identical at every index (non-interference of the batchedness analysis), otherwise it is rejected; '
-         'scan equals the Python loop for every body that does not write broadcast state, in any step order; the gradient lists exactly the selected Variables and deriv is the derivative. '
+         'scan equals the Python loop for every body that does not write broadcast state, in any step order; the gradient lists exactly the selected Variables and deriv is the derivative; jnp.moveaxis(x, axis, 0) / moveaxis(x, 0, axis) on the state are the inverse transpositions to_front / from_front for every rank and axis. '
          'Tied to /repo per run: random modules, StateAxes, non-square shapes, integer bodies, lengths, reverse, polynomial losses; outputs, final Variables and gradients compared in Coq '
          'and against the real eager per-index loop / Python loop / jax.grad of the functional form; aliasing and out_axes rejections by probes.',
     note='Trusted: Coq kernel, vm_compute, harness, jaxcompat, jax.vmap / lax.scan / jax.grad (idealised as map / fold / symbolic derivative). Axis-group Variables are represented by their '
